@@ -103,6 +103,21 @@ func app(f string, args ...string) string {
 	if len(args) == 0 {
 		return f
 	}
+	if len(args) == 1 && strings.HasPrefix(args[0], "(mk_iface ") && (f == "itag" || f == "ival") {
+		parts := splitSexp(args[0][1 : len(args[0])-1])
+		if len(parts) == 3 {
+			if f == "itag" {
+				return parts[1]
+			}
+			return parts[2]
+		}
+	}
+	if len(args) == 1 && strings.HasPrefix(f, "unbox.") && strings.HasPrefix(args[0], "(box."+f[6:]+" ") {
+		parts := splitSexp(args[0][1 : len(args[0])-1])
+		if len(parts) == 2 {
+			return parts[1]
+		}
+	}
 	if len(args) == 1 && strings.HasPrefix(args[0], "(mk_slice ") && (f == "sbase" || f == "slen" || f == "scap") {
 		parts := splitSexp(args[0][1 : len(args[0])-1])
 		if len(parts) == 4 {
@@ -213,6 +228,9 @@ func Implies(a, b string) string {
 func Eq(a, b string) string {
 	if a == b {
 		return "true"
+	}
+	if isIntLit(a) && isIntLit(b) {
+		return "false"
 	}
 	return app("=", a, b)
 }
@@ -341,6 +359,10 @@ func distinctRefs(a, b string) bool {
 	}
 	if (fa && (neg(b) || b == "0")) || (fb && (neg(a) || a == "0")) {
 		return true
+	}
+	isG := func(t string) bool { return strings.HasPrefix(t, "g.") && !strings.ContainsAny(t, " ()") }
+	if isG(a) && isG(b) {
+		return true // distinct package-level variables (asserted pairwise distinct in every query)
 	}
 	return false
 }
